@@ -52,66 +52,82 @@ func c14E2E(c *ev.Ctx) (judged int64) {
 			judged++
 		}
 	}
-	// E2: SIGINT while a prove request is in flight (established by observing the in-flight gauge)
+	// E2: SIGINT while k = 1, 2, 3 prove requests are in flight (established by observing the in-flight
+	// gauge; several at once so that requests queued behind a limited resource are in the picture too)
 	vacuous := 0
-	for attempt := 0; attempt < 5 && judged < 3; attempt++ {
-		s, err := startE2E(mode, "", "")
-		if err != nil {
-			c.HarnessError("e2e start: %v", err)
-		}
-		res := make(chan *e2eResp, 1)
-		go func() { res <- e2eDo("POST", "http://"+s.prover+"/prove", body) }()
-		inflight := false
-		for i := 0; i < 3000 && !inflight; i++ {
-			select {
-			case r := <-res:
-				res <- r
-				i = 1 << 30
-				continue
-			default:
+	for _, k := range []int{1, 2, 3} {
+		done := false
+		for attempt := 0; attempt < 4 && !done; attempt++ {
+			s, err := startE2E(mode, "", "")
+			if err != nil {
+				c.HarnessError("e2e start: %v", err)
 			}
-			m := e2eDo("GET", "http://"+s.metric+"/metrics", nil)
-			for _, v := range metricLines(m.Body, "http_requests_in_flight") {
-				if v == "1" {
-					inflight = true
+			res := make(chan *e2eResp, k)
+			for i := 0; i < k; i++ {
+				go func() { res <- e2eDo("POST", "http://"+s.prover+"/prove", body) }()
+			}
+			inflight := false
+			var early []*e2eResp
+			for i := 0; i < 3000 && !inflight && len(early) == 0; i++ {
+				select {
+				case r := <-res:
+					early = append(early, r)
+					continue
+				default:
+				}
+				m := e2eDo("GET", "http://"+s.metric+"/metrics", nil)
+				for _, v := range metricLines(m.Body, "http_requests_in_flight") {
+					if v == fmt.Sprint(k) {
+						inflight = true
+					}
 				}
 			}
-		}
-		if !inflight {
-			<-res
-			s.interrupt()
-			vacuous++
-			continue
-		}
-		exitCh := make(chan [2]int, 1)
-		go func() {
-			e, ok := s.interrupt()
-			o := 0
-			if ok {
-				o = 1
+			if !inflight {
+				// a response arrived before all k were seen in flight: not the situation to judge
+				for i := len(early); i < k; i++ {
+					<-res
+				}
+				s.interrupt()
+				vacuous++
+				continue
 			}
-			exitCh <- [2]int{e, o}
-		}()
-		r := <-res
-		ex := <-exitCh
-		if r.class() != "200" {
-			c.Violation("e2e|in-flight-request-dropped", fmt.Sprintf("a prove request that was in flight when SIGINT arrived did not receive its full response: %s", r.class()), nil)
-			return
+			exitCh := make(chan [2]int, 1)
+			go func() {
+				e, ok := s.interrupt()
+				o := 0
+				if ok {
+					o = 1
+				}
+				exitCh <- [2]int{e, o}
+			}()
+			var rs []*e2eResp
+			for i := 0; i < k; i++ {
+				rs = append(rs, <-res)
+			}
+			ex := <-exitCh
+			what := fmt.Sprintf("%d in flight", k)
+			for _, r := range rs {
+				if r.class() != "200" {
+					c.Violation("e2e|in-flight-request-dropped", fmt.Sprintf("a prove request that was in flight (%s) when SIGINT arrived did not receive its full response: %s", what, r.class()), nil)
+					return
+				}
+				pr, err := decodeProofIndependently(r.Body)
+				if err != nil || safeVerify(ps, mode, hash, pr) != nil {
+					c.Violation("e2e|in-flight-proof-invalid", "the response completed during shutdown ("+what+") is not a verifying proof", nil)
+					return
+				}
+			}
+			if ex[1] == 0 || ex[0] != 0 {
+				c.Violation("e2e|exit-status|in flight", fmt.Sprintf("exit status %d after SIGINT with %s", ex[0], what), nil)
+				return
+			}
+			if !canBind(s.prover) || !canBind(s.metric) {
+				c.Violation("e2e|address-bound-after-exit|in flight", "an address cannot be bound right after the process exited ("+what+")", nil)
+				return
+			}
+			judged++
+			done = true
 		}
-		pr, err := decodeProofIndependently(r.Body)
-		if err != nil || safeVerify(ps, mode, hash, pr) != nil {
-			c.Violation("e2e|in-flight-proof-invalid", "the response completed during shutdown is not a verifying proof", nil)
-			return
-		}
-		if ex[1] == 0 || ex[0] != 0 {
-			c.Violation("e2e|exit-status|in flight", fmt.Sprintf("exit status %d after SIGINT with a request in flight", ex[0]), nil)
-			return
-		}
-		if !canBind(s.prover) || !canBind(s.metric) {
-			c.Violation("e2e|address-bound-after-exit|in flight", "an address cannot be bound right after the process exited", nil)
-			return
-		}
-		judged++
 	}
 	c.Set("e2e_sigint_runs_judged", judged)
 	c.Set("e2e_runs_where_the_overlap_did_not_materialise", int64(vacuous))
